@@ -13,14 +13,17 @@ def signature(msg, case_lines):
     if what == "illegal_vhdl":
         if "parenthesised expression" in msg:
             return "illegal_vhdl:index_of_parenthesised_expression"
+        if "ambiguous operand types" in msg:
+            return "illegal_vhdl:ambiguous_operand_types"
         if "std_logic literal" in msg:
             return "illegal_vhdl:bad_std_logic_literal"
         return "illegal_vhdl:other"
     if what in ("check_mismatch_metavalue", "check_mismatch_uninitialised") and flag("tri") == "2":
         return "tristate:released_pin_recorded_as_X"
-    if what == "check_mismatch_metavalue" and (flag("undef") == "1" or flag("rundef") == "1"):
+    if (flag("undef") == "1" or flag("rundef") == "1") and flag("vhdl_has_metavalue") == "1" and what in ("check_mismatch_metavalue", "check_mismatch_value"):
         # the reference run itself contained undefined values (undefined stimuli, multiplexer without an input for its selector value,
-        # uninitialised memory ...): the exported VHDL is more pessimistic about them than the reference simulator
+        # uninitialised memory ...) and the VHDL side holds metavalues: the exported VHDL is more pessimistic about them than the
+        # reference simulator (CASE ... OTHERS => 'X', numeric_std), and `X = '1'` is FALSE where the reference knows the value
         return "xprop:metavalue_where_reference_defined"
     if what == "check_mismatch_uninitialised":
         return "power_on_value_missing:U_where_reference_defined"
@@ -46,8 +49,8 @@ vlib.standard_check({
     # harness args after the seed: ncases nsteps flags
     #   flags: 1 hierarchy 2 reset kinds 4 clock edges 8 output modes 16 memories/tristate/wide arithmetic 32 undefined stimuli
     #          64 stimuli at power-on 128 bidirectional pins released with 'Z'
-    "streams": {"quick": [[150, 25, 31], [40, 45, 31], [40, 20, 63], [30, 15, 223]],
-                "thorough": [[4000, 25, 31], [800, 60, 31], [600, 25, 63], [300, 20, 223]]},
+    "streams": {"quick": [[1200, 25, 31], [300, 45, 31], [300, 20, 63], [200, 15, 223]],
+                "thorough": [[30000, 25, 31], [6000, 60, 31], [4000, 25, 63], [2000, 20, 223]]},
     "search": [[300, 25, 31]],
     "signature": signature,
     "eval_key": "ops",
